@@ -13,24 +13,79 @@ from typing import Dict, List, Optional, Set, Tuple
 from oqv import roles, rolebind
 from oqv.astutil import branch_context, call_name, method_call
 from oqv.cfg import CFG
-from oqv.dataflow import DefUse
+from oqv.dataflow import DefUse, origin
 from oqv.model import AnalysisError, Program, Unit, dotted, norm, walk_local
 from oqv.report import Check
 
 SD = "system_dynamics"
 
 
+class NtView:
+    """compute_correlations_nt with its working variables identified by what they are made
+    from / flow into (not by their names): the two returned objects, the schedule pair from
+    _schedule_nt_correlations, the arguments of _compute_ordered_nt_correlations."""
+
+    def __init__(self, prog: Program):
+        self.u = prog.unit(f"{SD}:compute_correlations_nt")
+        self.du = DefUse(self.u, CFG(self.u.node, exc_edges=False))
+        rets = [r for r in walk_local(self.u.node) if isinstance(r, ast.Return)]
+        if len(rets) != 1 or not isinstance(rets[0].value, ast.Tuple) \
+                or len(rets[0].value.elts) != 2 \
+                or not all(isinstance(e, ast.Name) for e in rets[0].value.elts):
+            raise AnalysisError("C07: compute_correlations_nt no longer returns (times, values) "
+                                "as two local variables")
+        self.ret_times, self.ret_corr = [e.id for e in rets[0].value.elts]
+        sched = [st for st in walk_local(self.u.node) if isinstance(st, ast.Assign)
+                 and isinstance(st.value, ast.Call)
+                 and call_name(st.value) == "_schedule_nt_correlations"
+                 and isinstance(st.targets[0], ast.Tuple) and len(st.targets[0].elts) == 2
+                 and all(isinstance(e, ast.Name) for e in st.targets[0].elts)]
+        if len(sched) != 1:
+            raise AnalysisError("C07: `schedule, indices = _schedule_nt_correlations(..)` not found")
+        self.schedule, self.sch_indices = [e.id for e in sched[0].targets[0].elts]
+        calls = [c for c in walk_local(self.u.node) if isinstance(c, ast.Call)
+                 and call_name(c) == "_compute_ordered_nt_correlations"]
+        if len(calls) != 1:
+            raise AnalysisError("C07: call of _compute_ordered_nt_correlations not found")
+        self.inner_call = calls[0]
+        kw = {k.arg: k.value for k in calls[0].keywords if k.arg}
+        self.last_times = kw["last_times"].id if isinstance(kw.get("last_times"), ast.Name) else None
+        self.first_times = kw["first_times"].id if isinstance(kw.get("first_times"), ast.Name) \
+            else None
+        loops = [x for x in walk_local(self.u.node) if isinstance(x, ast.For)
+                 and any(isinstance(y, ast.Name) and y.id == self.schedule for y in ast.walk(x.iter))
+                 and isinstance(x.target, ast.Name)]
+        self.loop_var = loops[0].target.id if len(loops) == 1 else None
+
+    def canon(self, e: ast.AST) -> str:
+        """Text of e with the identified working variables written canonically."""
+        import copy
+        m = {self.ret_times: "RET_TIMES", self.ret_corr: "RET_CORR", self.schedule: "SCHEDULE",
+             self.sch_indices: "SCH_INDICES"}
+        if self.last_times:
+            m[self.last_times] = "LAST_TIMES"
+        if self.first_times:
+            m[self.first_times] = "FIRST_TIMES"
+        if self.loop_var:
+            m[self.loop_var] = "K"
+
+        class T(ast.NodeTransformer):
+            def visit_Name(self, n):
+                return ast.copy_location(ast.Name(id=m.get(n.id, n.id), ctx=n.ctx), n)
+        return norm(T().visit(copy.deepcopy(e)))
+
+
 # --------------------------------------------------------------------- V1
 def v1(prog: Program, chk: Check) -> None:
     chk.rule("V1", "the time step that labels the returned axes is the value that reaches "
              "compute_dynamics(dt=...) through _compute_ordered_nt_correlations", floor=3)
-    u = prog.unit(f"{SD}:compute_correlations_nt")
-    du = DefUse(u, CFG(u.node, exc_edges=False))
+    view = NtView(prog)
+    u, du = view.u, view.du
     chk.saw(u, du.cfg)
-    # the DT value used for the labels
+    # the DT value used for the labels: what is appended to the returned list of times
     label_dt = None
     for c in walk_local(u.node):
-        if isinstance(c, ast.Call) and method_call(c) == ("ret_times", "append"):
+        if isinstance(c, ast.Call) and method_call(c) == (view.ret_times, "append"):
             nid = du.node_of(c)
             e = c.args[0]
             if isinstance(e, ast.Name):
@@ -38,10 +93,10 @@ def v1(prog: Program, chk: Check) -> None:
                 if d is not None and d.value is not None:
                     nid, e = d.node, d.value
             for x in walk_local(e):
-                if isinstance(x, ast.Name) and roles.role_of(x) == "DT":
+                if isinstance(x, ast.Name) and rolebind.arg_role(u, x) == "DT":
                     label_dt = (x.id, frozenset(dd.id for dd in du.reaching(nid, x.id)))
     if label_dt is None:
-        raise AnalysisError("V1: the DT value labelling ret_times was not found")
+        raise AnalysisError("V1: the DT value labelling the returned times was not found")
     inner = prog.unit(f"{SD}:_compute_ordered_nt_correlations")
     calls = [c for c in walk_local(u.node) if isinstance(c, ast.Call)
              and call_name(c) == "_compute_ordered_nt_correlations"]
@@ -95,8 +150,8 @@ def v1(prog: Program, chk: Check) -> None:
 def v2(prog: Program, chk: Check) -> None:
     chk.rule("V2", "where a subset of the last operator's times is selected by a predicate, the "
              "write-back indices are selected by the same selector (same mask value)", floor=1)
-    u = prog.unit(f"{SD}:compute_correlations_nt")
-    du = DefUse(u, CFG(u.node, exc_edges=False))
+    view = NtView(prog)
+    u, du = view.u, view.du
     # filtered selections inside the function: X = A[sel] with a non-constant, non-slice selector
     sels: List[Tuple[int, ast.Assign, ast.Subscript]] = []
     for n in du.cfg.nodes:
@@ -108,10 +163,10 @@ def v2(prog: Program, chk: Check) -> None:
         """'times' / 'indices' / '' - which of the two parallel schedule arrays e derives from."""
         if depth > 6:
             return ""
-        s = norm(e)
-        if "sch_indices" in s:
+        s = view.canon(e)
+        if "SCH_INDICES" in s:
             return "indices"
-        if "schedule" in s:
+        if "SCHEDULE" in s:
             return "times"
         if isinstance(e, ast.Subscript):
             return origin(nid, e.value, depth + 1)
@@ -139,8 +194,8 @@ def v2(prog: Program, chk: Check) -> None:
         if isinstance(b, ast.Name):
             d = du.unique_value(nid, b.id)
             if d is not None and d.value is not None and not d.sel:
-                return norm(d.value)
-        return norm(b)
+                return view.canon(d.value)
+        return view.canon(b)
 
     def is_int_const(e: ast.AST) -> bool:
         if isinstance(e, ast.UnaryOp) and isinstance(e.op, ast.USub):
@@ -151,9 +206,9 @@ def v2(prog: Program, chk: Check) -> None:
         if is_int_const(sub.slice):
             continue
         bt = base_text(nid, sub.value)
-        if bt.startswith("schedule[") and bt.endswith("[-1]"):
+        if bt.startswith("SCHEDULE[") and bt.endswith("[-1]"):
             t_sel.append((nid, a, sub))
-        elif bt.startswith("sch_indices[") and bt.endswith("[-1]"):
+        elif bt.startswith("SCH_INDICES[") and bt.endswith("[-1]"):
             i_sel.append((nid, a, sub))
     if not t_sel or not i_sel:
         raise AnalysisError("V2: the filtered selection of last_times / sch_indices was not found")
@@ -261,69 +316,90 @@ def v4(prog: Program, chk: Check) -> None:
              "predicate", floor=3)
     u = prog.unit(f"{SD}:compute_correlations")
     chk.saw(u)
-    ifs = [st for st in u.node.body if isinstance(st, ast.If)]
-    by_test: Dict[str, List[ast.If]] = {}
-    for st in ifs:
-        by_test.setdefault(norm(st.test), []).append(st)
-
-    def lists(block: ast.If) -> Dict[str, List[str]]:
-        out = {}
-        for st in block.body:
-            if isinstance(st, ast.Assign) and isinstance(st.value, ast.List):
-                out[dotted(st.targets[0])] = [norm(e) for e in st.value.elts]
-        return out
-    ordered = next((b for t, bs in by_test.items() for b in bs if "'ordered'" in t), None)
-    anti_blocks = [b for t, bs in by_test.items() for b in bs if "'anti'" in t]
-    if ordered is None or len(anti_blocks) < 1:
-        raise AnalysisError("V4: ordered / anti branches of compute_correlations not found")
-    lo = lists(ordered)
-    la = lists(anti_blocks[0])
+    per_order = _lists_per_time_order(u)
     for k in ("operators", "ops_times"):
-        if k not in lo or k not in la:
-            raise AnalysisError(f"V4: list `{k}` not assigned in both branches")
-        ok = la[k] == list(reversed(lo[k]))
-        chk.add("V4", u, f"anti: {k} = {la[k]}", ok,
+        lo, la = per_order.get(k, {}).get("ordered"), per_order.get(k, {}).get("anti")
+        if lo is None or la is None:
+            raise AnalysisError(f"V4: the list handed over as `{k}` is not assigned under both "
+                                f"time orders")
+        ok = la == list(reversed(lo))
+        chk.add("V4", u, f"anti: {k} = {la}", ok,
                 "swapped relative to the ordered branch" if ok else
-                f"not the reversal of the ordered branch {lo[k]}", anti_blocks[0])
-    out_blocks = [b for b in anti_blocks[1:]]
+                f"not the reversal of the ordered branch {lo}")
     swapped_out = False
-    detail = "no block under the same predicate undoes the swap on the results"
-    for b in out_blocks:
-        for st in b.body:
-            if isinstance(st, ast.Assign) and isinstance(st.value, ast.Tuple) \
-                    and len(st.value.elts) == 2:
-                a, m = st.value.elts
-                rev = isinstance(a, ast.Subscript) and isinstance(a.slice, ast.Slice) \
-                    and a.slice.step is not None and norm(a.slice.step) == "-1" \
-                    and a.slice.lower is None and a.slice.upper is None
-                tr = (isinstance(m, ast.Call) and isinstance(m.func, ast.Attribute)
-                      and m.func.attr in ("transpose",)) or \
-                     (isinstance(m, ast.Attribute) and m.attr == "T")
-                swapped_out = rev and tr
-                detail = "axes list reversed and array transposed" if swapped_out else \
-                    f"results are returned as {norm(st.value)}"
+    detail = "no statement under the same predicate undoes the swap on the results"
+    site = None
+    for st in walk_local(u.node):
+        if not (isinstance(st, ast.Assign) and isinstance(st.value, ast.Tuple)
+                and len(st.value.elts) == 2):
+            continue
+        if _time_order_of(u, st) != "anti":
+            continue
+        a, m = st.value.elts
+        rev = isinstance(a, ast.Subscript) and isinstance(a.slice, ast.Slice) \
+            and a.slice.step is not None and norm(a.slice.step) == "-1" \
+            and a.slice.lower is None and a.slice.upper is None
+        tr = (isinstance(m, ast.Call) and isinstance(m.func, ast.Attribute)
+              and m.func.attr in ("transpose",)) or \
+             (isinstance(m, ast.Attribute) and m.attr == "T")
+        swapped_out = rev and tr
+        site = st
+        detail = "axes list reversed and array transposed" if swapped_out else \
+            f"results are returned as {norm(st.value)}"
     chk.add("V4", u, "anti: results swapped back under the same predicate", swapped_out, detail,
-            out_blocks[0] if out_blocks else anti_blocks[0])
+            site)
+
+
+def _time_order_of(u: Unit, st: ast.AST) -> Optional[str]:
+    """'ordered' / 'anti' if st sits under `time_order == <that constant>`."""
+    for (t, br) in branch_context(u.node, st):
+        if isinstance(t, ast.Compare) and len(t.ops) == 1 and isinstance(t.ops[0], ast.Eq) and br \
+                and dotted(t.left) == "time_order" and isinstance(t.comparators[0], ast.Constant):
+            return t.comparators[0].value
+    return None
+
+
+def _lists_per_time_order(u: Unit) -> Dict[str, Dict[str, List]]:
+    """keyword of the compute_correlations_nt call -> time order -> elements of the list
+    literal assigned (under that order) to the local that is handed over."""
+    calls = [c for c in walk_local(u.node) if isinstance(c, ast.Call)
+             and call_name(c) == "compute_correlations_nt"]
+    if len(calls) != 1:
+        raise AnalysisError("V4: compute_correlations no longer calls compute_correlations_nt once")
+    out: Dict[str, Dict[str, List]] = {}
+    for k in calls[0].keywords:
+        if k.arg in ("operators", "ops_times", "ops_order") and isinstance(k.value, ast.Name):
+            for st in walk_local(u.node):
+                if isinstance(st, ast.Assign) and len(st.targets) == 1 \
+                        and dotted(st.targets[0]) == k.value.id and isinstance(st.value, ast.List):
+                    order = _time_order_of(u, st)
+                    if order is not None:
+                        out.setdefault(k.arg, {})[order] = [
+                            (e.value if isinstance(e, ast.Constant) else norm(e))
+                            for e in st.value.elts]
+    return out
 
 
 # --------------------------------------------------------------------- V5
 def v5(prog: Program, chk: Check) -> None:
     chk.rule("V5", "the result array is initialised to NaN and written only at the scheduled "
              "indices of the current schedule entry", floor=2)
-    u = prog.unit(f"{SD}:compute_correlations_nt")
+    view = NtView(prog)
+    u = view.u
     stores = []
     for st in walk_local(u.node):
         if isinstance(st, ast.Assign):
             for t in st.targets:
-                if isinstance(t, ast.Subscript) and dotted(t.value) == "ret_correlations":
+                if isinstance(t, ast.Subscript) and dotted(t.value) == view.ret_corr:
                     stores.append((st, t))
     init = [s for s in stores if isinstance(s[1].slice, ast.Slice) and "nan" in norm(s[0].value)]
     writes = [s for s in stores if s not in init]
-    chk.add("V5", u, "ret_correlations[:] = NaN", len(init) == 1,
+    chk.add("V5", u, "result[:] = NaN", len(init) == 1,
             "" if len(init) == 1 else "the result array is not initialised to NaN")
-    ok = len(writes) == 1 and norm(writes[0][1].slice) == "sch_indices[i]"
-    chk.add("V5", u, f"writes: {[norm(w[0]) for w in writes]}", ok,
-            "" if ok else "results are written elsewhere than at sch_indices[i]")
+    ok = len(writes) == 1 and view.canon(writes[0][1].slice) == "SCH_INDICES[K]"
+    chk.add("V5", u, f"writes: {[view.canon(w[0]) for w in writes]}", ok,
+            "" if ok else "results are written elsewhere than at the scheduled indices of the "
+                          "current schedule entry")
 
 
 def v6_v7(prog: Program, chk: Check) -> None:
@@ -332,8 +408,19 @@ def v6_v7(prog: Program, chk: Check) -> None:
              floor=1)
     chk.rule("V7", "'left' / 'right' select left_super / right_super; the ordered two-time "
              "correlation applies both operators from the left", floor=2)
-    u = prog.unit(f"{SD}:compute_correlations_nt")
-    du = DefUse(u, CFG(u.node, exc_edges=False))
+    view = NtView(prog)
+    u, du = view.u, view.du
+    # the running maximum of the earlier times: the local defined by <array of first times>.max()
+    ftmax = [d.name for d in du.defs if d.value is not None and not d.sel
+             and isinstance(d.value, ast.Call) and isinstance(d.value.func, ast.Attribute)
+             and d.value.func.attr in ("max", "amax")]
+    if len(set(ftmax)) != 1 or view.last_times is None:
+        raise AnalysisError("V6: the maximum of the earlier times / the last times passed to "
+                            "_compute_ordered_nt_correlations were not identified")
+    ftmax = ftmax[0]
+
+    def cn(e):
+        return view.canon(e).replace(ftmax, "FT_MAX")
 
     def norm_cmp(c: ast.Compare) -> Optional[Tuple[str, str, str]]:
         if len(c.ops) != 1:
@@ -341,21 +428,24 @@ def v6_v7(prog: Program, chk: Check) -> None:
         op = {ast.Gt: ">", ast.GtE: ">=", ast.Lt: "<", ast.LtE: "<="}.get(type(c.ops[0]))
         if op is None:
             return None
-        l, r = norm(c.left), norm(c.comparators[0])
+        l, r = cn(c.left), cn(c.comparators[0])
         if op in ("<", "<="):          # write everything as  big OP small
             l, r, op = r, l, {"<": ">", "<=": ">="}[op]
         return l, op, r
     trigger = keep = None
+
+    def about(e):
+        t = cn(e)
+        return "LAST_TIMES" in t and "FT_MAX" in t
     for st in walk_local(u.node):
         if isinstance(st, ast.If):
             for c in ast.walk(st.test):
-                if isinstance(c, ast.Compare) and "last_times" in norm(c) and "ft_max" in norm(c):
+                if isinstance(c, ast.Compare) and about(c):
                     trigger = norm_cmp(c)
-        if isinstance(st, ast.Assign) and isinstance(st.value, ast.Compare) \
-                and "last_times" in norm(st.value) and "ft_max" in norm(st.value):
+        if isinstance(st, ast.Assign) and isinstance(st.value, ast.Compare) and about(st.value):
             keep = norm_cmp(st.value)
         if isinstance(st, ast.Assign) and isinstance(st.value, ast.Subscript) and \
-                isinstance(st.value.slice, ast.Compare) and "ft_max" in norm(st.value.slice):
+                isinstance(st.value.slice, ast.Compare) and about(st.value.slice):
             keep = norm_cmp(st.value.slice)
     ok = trigger is not None and keep is not None and \
         trigger[0] == keep[2] and trigger[2] == keep[0] and \
@@ -382,22 +472,28 @@ def v6_v7(prog: Program, chk: Check) -> None:
     chk.add("V7", inner, f"ops_order table {table}", ok,
             "" if ok else "'left'/'right' do not select left_super/right_super")
     cc = prog.unit(f"{SD}:compute_correlations")
-    orders = {}
-    for st in cc.node.body:
-        if isinstance(st, ast.If) and isinstance(st.test, ast.Compare) and \
-                isinstance(st.test.comparators[0], ast.Constant):
-            for b in st.body:
-                if isinstance(b, ast.Assign) and dotted(b.targets[0]) == "ops_order" \
-                        and isinstance(b.value, ast.List):
-                    orders[st.test.comparators[0].value] = [e.value for e in b.value.elts]
+    orders = _lists_per_time_order(cc).get("ops_order", {})
     ok = orders == {"ordered": ["left", "left"], "anti": ["right", "left"]}
     chk.add("V7", cc, f"ops_order per time_order {orders}", ok,
             "" if ok else "expected ordered -> [left, left], anti -> [right, left]")
     # the expectation is taken with the LAST operator and read at the last times
-    ok1 = any(isinstance(c, ast.Call) and method_call(c) == ("dynamics", "expectations")
-              and norm(c.args[0]) == "operators[-1]" for c in walk_local(inner.node))
-    ok2 = any(isinstance(x, ast.Subscript) and norm(x) == "corr[last_times]"
-              for x in walk_local(inner.node))
+    exp_calls = [c for c in walk_local(inner.node) if isinstance(c, ast.Call)
+                 and isinstance(c.func, ast.Attribute) and c.func.attr == "expectations" and c.args]
+    ok1 = len(exp_calls) == 1 and norm(exp_calls[0].args[0]) == "operators[-1]" \
+        and "operators" in inner.params
+    # the returned value is the expectation series (tuple position 1) indexed by last_times
+    dui = DefUse(inner, CFG(inner.node, exc_edges=False))
+    ok2 = False
+    if ok1:
+        for r in walk_local(inner.node):
+            if isinstance(r, ast.Return) and r.value is not None:
+                o = origin(dui, dui.node_of(r), r.value)
+                ok2 = isinstance(o, ast.Subscript) and norm(o.slice) == "last_times" \
+                    and "last_times" in inner.params and isinstance(o.value, ast.Call) \
+                    and isinstance(o.value.func, ast.Name) and o.value.func.id == "ITEM_1" \
+                    and any(y is not None and isinstance(y, ast.Call)
+                            and isinstance(y.func, ast.Attribute) and y.func.attr == "expectations"
+                            for y in ast.walk(o.value))
     chk.add("V7", inner, "expectation of operators[-1] read at last_times", ok1 and ok2,
             "" if ok1 and ok2 else "the last operator / its times are not the ones read out")
 
